@@ -122,6 +122,26 @@ class TaskSem(Semantics):
                 for g in n.generators:
                     if isinstance(g.target, ast.Name) and self._is_all_deps(g.iter):
                         mark([n], g.target.id)
+        # inherited = next((self.states[d] for d in deps if self.states[d] != COMPLETED), None)
+        self.dep_next_vars = {}
+        for n in walk_no_nested(finfo.node):
+            if isinstance(n, ast.Assign) and isinstance(n.targets[0], ast.Name) and isinstance(n.value, ast.Call) and isinstance(n.value.func, ast.Name) \
+                    and n.value.func.id == "next" and len(n.value.args) == 2 and isinstance(n.value.args[0], ast.GeneratorExp) \
+                    and isinstance(n.value.args[1], ast.Constant) and n.value.args[1].value is None:
+                g = n.value.args[0]
+                gen = g.generators[0]
+                if len(g.generators) == 1 and isinstance(gen.target, ast.Name) and self._is_all_deps(gen.iter):
+                    st_text = f"self.{self.info['states']}[{gen.target.id}]"
+                    if ast.unparse(g.elt) == st_text:
+                        passing = set()
+                        for m in self.members:
+                            try:
+                                cond = all(self._eval_member_test(c, st_text, m) for c in gen.ifs)
+                            except CantEval:
+                                cond = True
+                            if cond:
+                                passing.add(m)
+                        self.dep_next_vars[n.targets[0].id] = frozenset(passing)
         # boolean flag locals
         self.flags = set()
         assigned = {}
@@ -178,16 +198,38 @@ class TaskSem(Semantics):
             it = PureInterp(self.ctx, hooks=hooks)
             env = {"self": Obj("sched", working_dir=PROJ, **{"__class__": self.info["cls"]}), self.p_name: NAME,
                    cv[0]: tok("STDOUT"), cv[1]: tok("STDERR"), self.p_wd: tok("WD"), self.p_tid: tok("TID")}
+            first = min(getattr(x, "lineno", 10**9) for x in stmts)
+            for pre in walk_no_nested(self.finfo.node):
+                if isinstance(pre, ast.Assign) and pre.lineno < first and not any(isinstance(x, (ast.Await, ast.Yield)) for x in ast.walk(pre)) \
+                        and all(isinstance(t, ast.Name) and t.id not in env for t in pre.targets):
+                    try:
+                        it.block([pre], env, self.module, 0)
+                    except (Raised, Unsupported, Exception):
+                        pass
+            del events[:]
             try:
                 it.block(stmts, env, self.module, 0)
             except (Raised, Unsupported, Exception):
                 return []
             return events
 
+        lit_loops = {}
+        for n in walk_no_nested(self.finfo.node):
+            if isinstance(n, ast.For) and isinstance(n.iter, (ast.Tuple, ast.List)):
+                for sub_ in ast.walk(n):
+                    if isinstance(sub_, (ast.With, ast.AsyncWith)):
+                        lit_loops[id(sub_)] = n
+        done_loops = set()
         for n in walk_no_nested(self.finfo.node):
             key = None
             stmts = None
-            if isinstance(n, (ast.With, ast.AsyncWith)) and any(isinstance(i.context_expr, ast.Call) and "open" in ast.unparse(i.context_expr.func) for i in n.items):
+            if id(n) in lit_loops:
+                lp = lit_loops[id(n)]
+                if id(lp) in done_loops:
+                    continue
+                done_loops.add(id(lp))
+                key, stmts, n = id(lp.iter), [lp], lp
+            elif isinstance(n, (ast.With, ast.AsyncWith)) and any(isinstance(i.context_expr, ast.Call) and "open" in ast.unparse(i.context_expr.func) for i in n.items):
                 key, stmts = id(n.items[0]), [n]
             elif isinstance(n, ast.Expr) and isinstance(n.value, ast.Call) and isinstance(n.value.func, ast.Attribute) and dotted(n.value.func.value) == "self":
                 m = self.index.method(self.info["cls"], n.value.func.attr)
@@ -206,6 +248,25 @@ class TaskSem(Semantics):
                 self.log_list.append(site)
             if sites:
                 self.log_stmt[key] = sites
+
+    def _eval_member_test(self, cond, st_text, member):
+        """Truth of a condition on a task state when that state is `member`."""
+        def rec(n):
+            if isinstance(n, ast.AST) and not isinstance(n, (ast.expr_context, ast.operator, ast.cmpop, ast.boolop, ast.unaryop)) and ast.unparse(n) == st_text:
+                return ast.Name(id="__st", ctx=ast.Load())
+            if isinstance(n, list):
+                return [rec(x) for x in n]
+            if not isinstance(n, ast.AST):
+                return n
+            new = type(n)()
+            for f in n._fields:
+                if hasattr(n, f):
+                    setattr(new, f, rec(getattr(n, f)))
+            return new
+        t = ast.fix_missing_locations(ast.copy_location(rec(cond), cond))
+        for x in ast.walk(t):
+            x._module = self.module
+        return bool(self.ctx.ev.eval(t, self.module, {"__st": EnumVal(self.enum_cls, member)}))
 
     # ---- recognisers
     def _benign_rebind(self, value):
@@ -270,7 +331,9 @@ class TaskSem(Semantics):
                 # local variable holding the set
                 for n in walk_no_nested(self.finfo.node):
                     if isinstance(n, ast.Assign) and any(isinstance(t, ast.Name) and t.id == arg.id for t in n.targets):
-                        kind = self._deps_task_set(n.value)
+                        kind = kind or self._deps_task_set(n.value)
+                if kind is None:
+                    kind = self._eval_local_set(arg.id, c)
             if kind is None:
                 return ("bad", f"awaitables {ast.unparse(arg)[:60]} are not the tasks of all dependencies", None)
             if reason:
@@ -300,6 +363,34 @@ class TaskSem(Semantics):
         except TypeError:
             return None
 
+    def _eval_local_set(self, name, before):
+        """A set built by explicit statements (`s = set(); for d in deps: s.add(self.tasks[d])`): template-evaluate those statements."""
+        from ..symeval import Obj, PureInterp, Raised, Unsupported, tok
+        if self.deps_rebound is not None:
+            return None
+        stmts = []
+        def collect(body):
+            for st in body:
+                if getattr(st, "lineno", 0) >= before.lineno:
+                    continue
+                touches = any(isinstance(x, ast.Name) and x.id == name for x in ast.walk(st))
+                if isinstance(st, (ast.Assign, ast.AugAssign, ast.Expr, ast.For)) and touches:
+                    stmts.append(st)
+                elif isinstance(st, (ast.If, ast.Try, ast.With)):
+                    for fld in ("body", "orelse", "finalbody"):
+                        collect(getattr(st, fld, []) or [])
+        collect(self.finfo.node.body)
+        if not stmts:
+            return None
+        ids = [tok("D1"), tok("D2"), tok("D3")]
+        tasks = {i: tok("T" + i[2]) for i in ids}
+        env = {"self": Obj("sched", **{self.info["tasks"]: tasks, self.info["states"]: {}, "__class__": self.info["cls"]}), self.p_deps: list(ids)}
+        try:
+            PureInterp(self.ctx).block(stmts, env, self.module, 0)
+            return "all" if set(env.get(name, ())) == set(tasks.values()) else None
+        except (Raised, Unsupported, Exception):
+            return None
+
     def _deps_task_set_syntactic(self, expr):
         if isinstance(expr, ast.Call) and len(expr.args) == 1 and isinstance(expr.func, (ast.Name, ast.Attribute)) and self.index.canon(expr.func, self.module) in (
                 "builtins.set", "builtins.list", "builtins.tuple", "builtins.frozenset"):
@@ -325,6 +416,8 @@ class TaskSem(Semantics):
 
     # ---- domains
     def domain(self, text):
+        if text in self.dep_next_vars:
+            return list(self.dep_next_vars[text]) + [None]
         if text == self.own_state:
             return self.members
         for v in self.dep_vars:
@@ -362,6 +455,11 @@ class TaskSem(Semantics):
     def assign(self, target_text, value_expr, state):
         if value_expr is None:
             return None
+        if target_text in self.dep_next_vars:
+            vals = set(self.dep_next_vars[target_text])
+            if state.facts.get("waited"):
+                vals &= FINAL
+            return frozenset(vals | {None})
         if target_text in self.proc_vars:
             if isinstance(value_expr, ast.Constant) and value_expr.value is None:
                 return frozenset([None])
@@ -370,7 +468,7 @@ class TaskSem(Semantics):
             return None
         if target_text == self.own_state or target_text.startswith(f"self.{self.info['states']}["):
             vt = ast.unparse(value_expr)
-            vt = self.alias_of.get(vt, vt)
+            vt = state.alias_src(vt) or vt
             c = self.const(value_expr, state)
             if c is None:
                 d = self.domain(vt)
@@ -414,6 +512,15 @@ class TaskSem(Semantics):
         if isinstance(node, tuple):
             if node[0] == "handler" and "cause" not in state.facts:
                 return state.with_fact("cause", self.h.norm(node[2]))
+            if node[0] == "with_exit" and state.facts.get("deferred_release"):
+                st = node[1]
+                if any(isinstance(i.context_expr, ast.Call) and (self.index.canon(i.context_expr.func, self.module) or "").endswith("ExitStack") for i in st.items):
+                    s = state.with_fact("deferred_release", False)
+                    if not s.facts.get("acq"):
+                        return s.with_fact("bad_release", st.lineno).note(st, "RELEASE WITHOUT ACQUIRE (ExitStack callback)")
+                    if s.facts.get("proc_alive"):
+                        s = s.with_fact("release_while_alive", st.lineno)
+                    return s.with_fact("acq", 0).note(st, "core released (ExitStack callback)")
             return state
         s = state
         if isinstance(node, ast.Raise) and node.exc is not None and "cause" not in s.facts:
@@ -431,7 +538,15 @@ class TaskSem(Semantics):
             if s.facts.get("acq"):
                 s = s.with_fact("double_acquire", getattr(node, "lineno", 0))
             s = s.with_fact("acq", 1).note(node, "core acquired")
-        if self._sem_call(node, "release") is not None:
+        deferred = False
+        if isinstance(node, ast.AST):
+            for c in _calls(node):
+                if isinstance(c.func, ast.Attribute) and c.func.attr in ("callback", "push") and c.args and isinstance(c.args[0], ast.Attribute) \
+                        and c.args[0].attr == "release" and isinstance(c.args[0].value, ast.Attribute) and c.args[0].value.attr == self.info["sem"]:
+                    deferred = True
+        if deferred:
+            s = s.with_fact("deferred_release", True).note(node, "release registered on an ExitStack")
+        elif self._sem_call(node, "release") is not None:
             if not s.facts.get("acq"):
                 s = s.with_fact("bad_release", getattr(node, "lineno", 0)).note(node, "RELEASE WITHOUT ACQUIRE")
             else:
@@ -481,10 +596,17 @@ class TaskSem(Semantics):
             for t in node.targets:
                 if ast.unparse(t) == self.own_state:
                     s = s.note(node, f"state := {ast.unparse(node.value)}")
+                    vt = ast.unparse(node.value)
+                    src = s.alias_src(vt) or vt
+                    from_dep = any(src == f"self.{self.info['states']}[{v}]" for v in self.dep_vars) or src in self.dep_next_vars or vt in self.dep_next_vars
+                    s = s.with_fact("inherited", from_dep)
         return s
 
     def _depcheck(self, s):
         """True if on this path every dependency examined by the check loop was COMPLETED."""
+        for v in self.dep_next_vars:
+            if s.vars.get(v) == frozenset([None]):
+                return True  # next(<non-completed dependency states>, None) found none
         if not self.dep_vars:
             return False
         for v in self.dep_vars:
